@@ -198,11 +198,13 @@ def event_groups(ev):
 
 
 def closing_reads(tables=("pub",), atoms=("E1", "E0", "I11")):
+    """the fixed panel observed after the last event: every lazy name through three atoms, then computed values"""
     out = []
     for T in tables:
         for n in LAZY_NAMES:
             for a in atoms:
                 out.append(["read", T, a, n])
+    out += [["calc", "water", "pub"], ["calc", "magnetic_j0", "pub"], ["calc", "xray_sld_ion", "pub"]]
     return out
 
 
